@@ -137,7 +137,7 @@ func checkC02(p *load.Program, r *kit.Report) {
 		reach := kit.Reach(ph, []kit.Pt{kit.EdgeStart(gd.FailEdge())}, kit.Opts{})
 		bad := ""
 		for _, ret := range kit.Returns(ph) {
-			if reach.Has(ret) && errCause(kit.RetOperand(ret, 0)) != "ErrNotEnoughWork" {
+			if reach.Has(ret) && errCauseVia(reach, ret, 0) != "ErrNotEnoughWork" {
 				bad = "failed work check reaches " + retLabel(ret)
 			}
 		}
@@ -239,7 +239,7 @@ func checkC02(p *load.Program, r *kit.Report) {
 		reach := kit.Reach(ph, []kit.Pt{kit.EdgeStart(bitsEq[0].FailEdge())}, kit.Opts{})
 		badR := ""
 		for _, ret := range kit.Returns(ph) {
-			if reach.Has(ret) && errCause(kit.RetOperand(ret, 0)) != "ErrInvalidTarget" {
+			if reach.Has(ret) && errCauseVia(reach, ret, 0) != "ErrInvalidTarget" {
 				badR = "bits mismatch reaches " + retLabel(ret)
 			}
 		}
